@@ -120,6 +120,11 @@ def gen_case(rng, op, small=False):
             deco["notes"]["grp:" + g["id"]] = gen_dict(rng)
         if rng.random() < 0.5:
             deco["annotation"]["grp:" + g["id"]] = gen_dict(rng)
+    if op not in ("frame", "scopy") and genes and rng.random() < 0.3:
+        # genes renamed (rename_genes rewrites the rules as syntax trees) to identifiers that are Python keywords or
+        # start with a digit: the text form of such a rule needs the escape prefix on its way through the parser
+        names = rng.sample(["class", "pass", "as", "else", "return", "1abc", "2_c", "break"], min(2, len(genes)))
+        deco["rename"] = dict(zip(rng.sample(genes, len(names)), names))
     case = {"net": net, "deco": deco, "solver": rng.choice(["glpk", "glpk", "glpk_exact"]),
             "ctx": rng.random() < 0.3, "op": op}
     if op == "rcopy":
@@ -177,6 +182,9 @@ def build(case):
         v = m.problem.Variable("user_var", lb=0, ub=8)
         c = m.problem.Constraint(r.flux_expression + v, lb=-1000, ub=1000, name="user_con")
         m.add_cons_vars([v, c])
+    if deco.get("rename"):
+        from cobra.manipulation.modify import rename_genes
+        rename_genes(m, {k: v for k, v in deco["rename"].items() if k in m.genes})
     return m
 
 
